@@ -131,6 +131,14 @@ def strategy(tier):
         exactish = draw(st.integers(0, 9)) < 7
         n = draw(st.integers(0, 16))
         batch = [draw(gen.rows(crit, exactish, none_cats=False, focus=focus)) for _ in range(n)]
+        cuts = draw(gen.cuts(n, 4))
+        if n and draw(st.integers(0, 5)) == 0:
+            # one whole call's worth of rows with one special value in one column ("a batch that is all NaN")
+            pieces = [p_ for p_ in gen.split(list(range(n)), cuts) if p_]
+            piece = pieces[draw(st.integers(0, len(pieces) - 1))]
+            col, val = draw(st.sampled_from(("x", "y", "z"))), draw(st.sampled_from((float("nan"), float("nan"), float("inf"), float("-inf"), 0.0)))
+            for i_ in piece:
+                batch[i_][col] = val
         if n and rep != "bare" and any(s_["k"] in ("Select", "Fraction") and s_["q"].get("col") == "w" for _, s_ in walk_spec(spec)) and draw(st.integers(0, 5)) == 0:
             # a selection quantity is a quantity too: +-inf cut weights (the reference model does not cover them)
             for r in batch:
@@ -166,7 +174,6 @@ def strategy(tier):
                 w = [1.0] * n
         else:
             w = None
-        cuts = draw(gen.cuts(n, 4))
         return {"spec": spec, "rep": rep, "batch": batch, "wmode": wmode, "w": w, "cuts": cuts, "excluded": excluded, "views": draw(st.booleans()),
                 "np_rows": draw(st.integers(0, 5)) == 0, "flavour": flavour}
 
